@@ -20,7 +20,7 @@ def run(tier):
               "mirror / invert / alpha / channel-width identities, deep copies); clipping invariance of draw_text, fill_rect "
               "and blit against a canvas enlarged by 9 pixels per side, with character cells placed exactly on the right and "
               "bottom edges; distinct = (operation, outcome / placement class)")
-    c.assumptions = ["the per-pixel arithmetic model covers 8-bit channels; other widths are exercised through the identity laws",
+    c.assumptions = ["the per-pixel arithmetic model covers 8-bit channels; other widths are exercised through the identity laws and as image masks (pixels white under only one reading of white are not generated)",
                      "coordinates are limited to +-10^9 so that the checker's 32-bit integers cannot overflow",
                      "draw_line with an endpoint outside the canvas may draw any subset of the ideal segment (DESIGN 4.2)"]
     return c.finish()
